@@ -5,6 +5,8 @@ import (
 	"encoding/json"
 	"fmt"
 	"os"
+	"regexp"
+	"strings"
 	"sync"
 	"time"
 
@@ -25,6 +27,27 @@ type corpusEntry struct {
 	// poison: encoding this value panics half-way by design. The panic is the reference result of the encode
 	// operations (decode operations are excluded); such entries are not run on the reused encoders
 	poison bool
+	// mangle: applied to the XML / JSON reference encoding before it is decoded: the spelling a foreign peer might use
+	mangle func(op int, src []byte) []byte
+}
+
+var (
+	reXMLEnum  = regexp.MustCompile(`(type="Enumeration" value=")([^"]*)(")`)
+	reJSONEnum = regexp.MustCompile(`("type": "Enumeration", "value": ")([^"]*)(")`)
+)
+
+// respell rewrites every enumeration name of an XML or JSON document with f.
+func respell(f func(string) string) func(int, []byte) []byte {
+	return func(op int, src []byte) []byte {
+		re := reXMLEnum
+		if op == opDecJSON {
+			re = reJSONEnum
+		}
+		return re.ReplaceAllFunc(src, func(m []byte) []byte {
+			sm := re.FindSubmatch(m)
+			return []byte(string(sm[1]) + f(string(sm[2])) + string(sm[3]))
+		})
+	}
 }
 
 // keepResult says whether a result computed alone is usable as a reference.
@@ -134,6 +157,17 @@ func buildCorpus() {
 	corpus = append(corpus, corpusEntry{name: "any-ptr/RequestHeader", value: &a2, target: func() any { return &kmip.RequestHeader{} }})
 	hdr := &kmip.RequestHeader{ProtocolVersion: kmip.V1_4, BatchCount: 1, ClientCorrelationValue: "ccv", AttestationCapableIndicator: &t}
 	corpus = append(corpus, corpusEntry{name: "bare-header/1.4", value: hdr, target: func() any { return &kmip.RequestHeader{} }})
+	// the same values as spelled by a foreign peer: enumeration names in another case (whether the decoders accept
+	// them is not the point: whatever they do with them must leave nothing behind for later calls)
+	for _, base := range []int{0, 1, 5, len(corpus) - 12, len(corpus) - 11} {
+		if base < 0 || base >= len(corpus) {
+			continue
+		}
+		b := corpus[base]
+		for k, f := range []func(string) string{strings.ToUpper, strings.ToLower} {
+			corpus = append(corpus, corpusEntry{name: fmt.Sprintf("respelled/%d/%s", k, b.name), value: b.value, target: b.target, mangle: respell(f)})
+		}
+	}
 	// values whose encoding panics half-way (negative interval after some content; a Go type the encoder does not
 	// support): the panic is the deterministic result of that call, and whatever the aborted call leaves behind
 	// (a half-written pooled buffer, a version) must not show in any later result
@@ -197,9 +231,15 @@ func codecOp(e *corpusEntry, op int, enc *ttlv.Encoder) (res string) {
 			err = ttlv.UnmarshalTTLV(bytes.Clone(src), tgt)
 		case opDecXML:
 			src = []byte(codecRef[entryIndex(e)][opEncXML])
+			if e.mangle != nil {
+				src = e.mangle(op, src)
+			}
 			err = ttlv.UnmarshalXML(bytes.Clone(src), tgt)
 		case opDecJSON:
 			src = []byte(codecRef[entryIndex(e)][opEncJSON])
+			if e.mangle != nil {
+				src = e.mangle(op, src)
+			}
 			err = ttlv.UnmarshalJSON(bytes.Clone(src), tgt)
 		}
 		if err != nil {
